@@ -230,9 +230,25 @@ pub fn c14(tier: &str) -> i32 {
     let mut out = Outcome::new("C14", tier, "model_checking");
     let t = crate::bookprops::thorough(tier);
     crate::marketx::c14_market_part(&mut out, t);
-    let cl = Clauses { sched: true, model: true, ..Default::default() };
+    let cl = Clauses { sched: true, model: true, invisible: true, records: true, ..Default::default() };
     let s = if t { 5 } else { 4 };
-    let c = ecfg("MarketEnv<2,3>: shuffled batches across assets", true, &[1, 2], 100, s, 2, 0, &cl);
+    // from books with several occupied levels: steps that rearrange the depth but keep touch and totals
+    let mut c = ecfg("MarketEnv<2,3>: from three-level books, per-asset queries and histories vs live books", true, &[1, 2], 100, 3, 2, 0, &cl);
+    c.alpha = alpha_for(&[1, 2], true);
+    c.alpha.prices = vec![vec![1, 2, 3], vec![2, 4, 6]];
+    c.base = vec![
+        Act::Submit(Instr::New { a: 0, bid: true, vol: 2, price: Some(3) }),
+        Act::Submit(Instr::New { a: 0, bid: true, vol: 2, price: Some(2) }),
+        Act::Submit(Instr::New { a: 1, bid: false, vol: 1, price: Some(2) }),
+        Act::Submit(Instr::New { a: 1, bid: false, vol: 2, price: Some(4) }),
+        Act::Step(vec![Ans::Frac(1, 4), Ans::Frac(2, 3), Ans::Frac(0, 2)]),
+    ];
+    absorb_env(&mut out, &c, 2, 3, run_env::<2, 3>(&c), "market-env", true);
+    let mut c = ecfg("MarketEnv<2,3>: shuffled batches across assets", true, &[1, 2], 100, s, 2, 0, &cl);
+    if !t {
+        // four submissions, but cancels only for orders of asset 0's first slot are dropped: keep the quick tier short
+        c.alpha.market_vols = vec![];
+    }
     absorb_env(&mut out, &c, 2, 3, run_env::<2, 3>(&c), "market-env", true);
     let c = ecfg("MarketEnv<3,2>: three assets", true, &[1, 2, 3], 100, s - 1, 2, 0, &cl);
     absorb_env(&mut out, &c, 3, 2, run_env::<3, 2>(&c), "market-env", true);
@@ -269,6 +285,11 @@ pub fn c12_env_part(out: &mut Outcome, t: bool) {
     c.alpha.badnew = true;
     c.alpha.offgrid_modify = true;
     c.alpha.modify = false;
+    absorb_env(out, &c, 2, 3, run_env::<2, 3>(&c), "market-env", false);
+    // on-grid modifications too (steps in which an asset receives nothing but a modify)
+    let mut c = ecfg("MarketEnv<2,3> ticks 2,3: modify-only steps, published levels vs resting orders", true, &[2, 3], 100, s, 3, 0, &cl);
+    c.alpha.offgrid_modify = true;
+    c.alpha.cancel = false;
     absorb_env(out, &c, 2, 3, run_env::<2, 3>(&c), "market-env", false);
 }
 
